@@ -7,14 +7,15 @@
       tie_murmur_sum128       : (Generated.Murmur.sum128 data).1.toNat = Murmur.getHash data
       tie_murmur_getHash      : (Generated.Murmur.getHash data).toNat = Murmur.getHash data
 
-  assembled from `tie_fmix64`, `tie_bmixBlock`, `tie_blockLoad`, `tie_tailMix`, `tie_finalize` and the
-  induction over the blocks `tie_bmix`.  `Murmur.getHash` is the hash function the cuckoo model
+  assembled from `tie_bmixBlock`, `tie_blockLoad`, `tie_tailMix`, `tie_finalize` (which contains `fmix64`:
+  the translator inlines straight-line helper functions) and the induction over the blocks `tie_bmix`.  `Murmur.getHash` is the hash function the cuckoo model
   (`Cuckoo.positions`, `Cuckoo.hashStr`) is instantiated with; before this file it was tied to the
   code only by differential testing.
 
-  What is GENERATED: every definition of Generated/Murmur.lean (constants, `blockLoad`, `bmixBlock`,
-  loop header, `fmix64`, `tailMix`, `finalize`, `digestSum128`, seeds, `nblocksOf`, `tailStart`,
-  `getHashWord`).  What is hand-written ASSEMBLY: `Generated.Murmur.bmix` (the loop as a fold),
+  What is GENERATED: every definition of Generated/Murmur.lean (`blockLoad`, `bmixBlock`, loop header,
+  `tailMix`, `finalize`, `digestSum128`, seeds, `nblocksOf`, `tailStart`, `lengthArg`, `getHashWord`).
+  These are role names chosen by the translator; no hand-written file mentions a name derived from a
+  Go identifier, so renaming constants / locals / helpers in murmur.go does not break this file.  What is hand-written ASSEMBLY: `Generated.Murmur.bmix` (the loop as a fold),
   `Generated.Murmur.sum128` and `Generated.Murmur.getHash` in Model/GoMurmur.lean, and the three
   primitives of Model/GoBits.lean (`rotl64`, `byteAt`, `le64` / `loadLE64`).
   Assumptions (not proved, stated in the generated header): little-endian target for the
@@ -34,14 +35,10 @@ open Gostatix Gostatix.Generated.Murmur
 
 /-! ### the pieces -/
 
-/-- `fmix64` of murmur.go is `Murmur.fmix64`. -/
-theorem tie_fmix64 (k : UInt64) : Generated.Murmur.fmix64 k = Murmur.fmix64 k := by
-  simp only [Generated.Murmur.fmix64, Murmur.fmix64] <;> ac_rfl
-
 /-- the loop body of `bmix` (after the load) is one iteration of `Murmur.bmix`. -/
 theorem tie_bmixBlock (h1 h2 k1 k2 : UInt64) : bmixBlock h1 h2 k1 k2 = modelBlock h1 h2 k1 k2 := by
   simp (disch := decide) only [bmixBlock, modelBlock, model_rotl, UInt64.reduceToNat,
-    c1_128, c2_128, Murmur.c1, Murmur.c2] <;> ac_rfl
+    Murmur.c1, Murmur.c2] <;> ac_rfl
 
 /-- the unsafe `[2]uint64` view of block `i` (little-endian target) reads the two words the model
     loads from the list with the first `16*i` bytes dropped. -/
@@ -49,9 +46,10 @@ theorem tie_blockLoad (p : List UInt8) (i : Nat) :
     blockLoad p i = (Murmur.le64 (p.drop (16 * i)), Murmur.le64 ((p.drop (16 * i)).drop 8)) := by
   simp only [blockLoad, GoBits.loadLE64, le64_take, List.drop_drop, Nat.add_zero, Nat.mul_comm i 16]
 
-/-- the finalisation of `Sum128` is the finalisation of `Murmur.sum128`. -/
+/-- the finalisation of `Sum128` (the calls of `fmix64` are inlined by the translator) is the
+    finalisation of `Murmur.sum128`, `Murmur.fmix64` included. -/
 theorem tie_finalize (h1 h2 dlen : UInt64) : finalize h1 h2 dlen = modelFinal h1 h2 dlen := by
-  simp only [finalize, modelFinal, tie_fmix64] <;> ac_rfl
+  simp only [finalize, modelFinal, Murmur.fmix64] <;> ac_rfl
 
 /-- one length of the tail: evaluate the guards `len & 15 ≥ c`, read the bytes, fold the
     `k ^= uint64(tail[i]) << 8i` chain into the little-endian value, rotate. -/
@@ -63,7 +61,7 @@ local macro "tail_case" : tactic =>
       List.drop_succ_cons, List.take_succ_cons, List.drop_zero, List.take_zero, List.take_nil,
       List.drop_nil]
     <;> simp (disch := decide) only [le64_start0, le64_start1, le64_last, le64_step,
-      UInt64.shiftLeft_zero, model_rotl, UInt64.reduceToNat, c1_128, c2_128, Murmur.c1, Murmur.c2]))
+      UInt64.shiftLeft_zero, model_rotl, UInt64.reduceToNat, Murmur.c1, Murmur.c2]))
 
 /-- the `switch len(tail) & 15 { case 15: ...; fallthrough; ... case 1: ... }` of `Sum128` is the
     tail part of `Murmur.sum128`, for every tail shorter than a block. -/
@@ -129,7 +127,7 @@ theorem tie_murmur_sum128_words (data : List UInt8) :
   have hl : (data.drop (16 * (data.length / 16))).length < 16 := by
     rw [List.length_drop]; omega
   rw [model_sum128 data _ _ _ hb, ← tie_tailMix _ _ _ hl, ← tie_finalize]
-  simp only [Generated.Murmur.sum128, digestSum128, nblocksOf, tailStart, seedH1, seedH2,
+  simp only [Generated.Murmur.sum128, digestSum128, nblocksOf, tailStart, lengthArg, seedH1, seedH2,
     Nat.mul_comm (data.length / 16) 16, Nat.toUInt64]
 
 /-- the first word, as the `Nat` the cuckoo model works with (`Murmur.getHash`). -/
